@@ -149,6 +149,26 @@ pub fn run(ctx: &Ctx) -> i32 {
         st.count("lattice_on_fixed_inputs");
         check_case(ctx, st, &tcs, Settings::new(f));
     });
+    // medium-sized inputs: many / long test cases, many distinct symbols, long repeats, deep prefix chains
+    {
+        let n = if ctx.thorough { 6000 } else { 400 };
+        let names = ["sgr", "meta", "mixed", "ab"];
+        let als: Vec<Vec<String>> = names.iter().map(|a| gen::alphabet(a)).collect();
+        par_for(&ctx.run, n, |i, st| {
+            let mut rng = Rng::new(seed, 0x151_0000 + i as u64);
+            let tcs = gen::medium_family(&mut rng, &als[i % als.len()]);
+            let tcs: Vec<String> = tcs.into_iter().filter(|t| !t.is_empty()).collect();
+            if tcs.is_empty() {
+                return;
+            }
+            st.count("medium_sized_inputs");
+            let mut s = gen::settings(&mut rng, OTHER & !CLASS_MASK);
+            if i % 2 == 0 {
+                s.flags |= VERB;
+            }
+            check_case(ctx, st, &tcs, s);
+        });
+    }
     let n = if ctx.thorough { 400_000 } else { 40_000 };
     let names = ["sgr", "meta", "mixed", "ws", "graph", "astral", "classes", "ab", "case"];
     let alphabets: Vec<(String, Vec<String>)> = names.iter().map(|a| (a.to_string(), gen::alphabet(a))).collect();
